@@ -989,7 +989,3 @@ Definition run_all (fam : Z) (cv xv kv pcv : value) (tzsize sigsz : Z) (dekv : v
              end]
   | _ => VList [ex; lens]
   end.
-
-Example mixin_table_ok_now : mixin_table_ok = true. Proof. vm_compute. reflexivity. Qed.
-Example resolution_ok_now : resolution_ok = true. Proof. vm_compute. reflexivity. Qed.
-Example consts_ok_now : consts_ok = true. Proof. vm_compute. reflexivity. Qed.
